@@ -22,6 +22,7 @@ type Reader struct {
 	cpyLen int          // Bytes left to backward dictionary copy
 	last   bool         // Last block bit detected
 	err    error        // Persistent error
+	done   bool         // Has Close completed successfully?
 
 	step      func(*Reader) // Single step of decompression work (can panic)
 	stepState int           // The sub-step state for certain steps
@@ -89,8 +90,8 @@ func (zr *Reader) Read(buf []byte) (int, error) {
 
 func (zr *Reader) Close() error {
 	zr.toRead = nil // Make sure future reads fail
-	if zr.err == io.EOF || zr.err == errClosed {
-		zr.err = errClosed
+	if zr.err == io.EOF || zr.done {
+		zr.err, zr.done = errClosed, true
 		return nil
 	}
 	return zr.err // Return the persistent error
